@@ -1,5 +1,156 @@
 package main
 
+import (
+	"fmt"
+	"go/ast"
+	"go/token"
+	"go/types"
+	"sort"
+	"strings"
+)
+
+// C14 facts: unit-conversion constants, the cgroup-v2 weight formula, the nil-vs-empty guards of the six entry paths
+// of the protocol package, the guard order of the six BatchResource setters, the registered cgroup reconcilers, the
+// node-SLO glue (getCPUSuppressPolicy) and the cgroup updaters used for the three files.
+// Expressions are rendered with the function's LOCAL identifiers replaced by `_`, so that renaming a local variable
+// keeps the facts (and the tie lemmas) unchanged.
+
+func c14Locals(fd *ast.FuncDecl) map[string]bool {
+	loc := map[string]bool{}
+	add := func(fl *ast.FieldList) {
+		if fl == nil {
+			return
+		}
+		for _, f := range fl.List {
+			for _, n := range f.Names {
+				loc[n.Name] = true
+			}
+		}
+	}
+	add(fd.Recv)
+	add(fd.Type.Params)
+	add(fd.Type.Results)
+	ast.Inspect(fd.Body, func(n ast.Node) bool {
+		switch s := n.(type) {
+		case *ast.AssignStmt:
+			if s.Tok == token.DEFINE {
+				for _, l := range s.Lhs {
+					if id, ok := l.(*ast.Ident); ok {
+						loc[id.Name] = true
+					}
+				}
+			}
+		case *ast.RangeStmt:
+			for _, x := range []ast.Expr{s.Key, s.Value} {
+				if id, ok := x.(*ast.Ident); ok && s.Tok == token.DEFINE {
+					loc[id.Name] = true
+				}
+			}
+		case *ast.ValueSpec:
+			for _, id := range s.Names {
+				loc[id.Name] = true
+			}
+		}
+		return true
+	})
+	return loc
+}
+
+// c14Norm renders x with local identifiers (not selector field names) replaced by "_".
+func c14Norm(loc map[string]bool, x ast.Expr) string {
+	var cp func(ast.Expr) ast.Expr
+	cp = func(x ast.Expr) ast.Expr {
+		switch v := x.(type) {
+		case *ast.Ident:
+			if loc[v.Name] {
+				return ast.NewIdent("_")
+			}
+			return v
+		case *ast.SelectorExpr:
+			return &ast.SelectorExpr{X: cp(v.X), Sel: v.Sel}
+		case *ast.BinaryExpr:
+			return &ast.BinaryExpr{X: cp(v.X), Op: v.Op, Y: cp(v.Y)}
+		case *ast.UnaryExpr:
+			return &ast.UnaryExpr{Op: v.Op, X: cp(v.X)}
+		case *ast.StarExpr:
+			return &ast.StarExpr{X: cp(v.X)}
+		case *ast.ParenExpr:
+			return &ast.ParenExpr{X: cp(v.X)}
+		case *ast.CallExpr:
+			c := &ast.CallExpr{Fun: cp(v.Fun)}
+			for _, a := range v.Args {
+				c.Args = append(c.Args, cp(a))
+			}
+			return c
+		case *ast.IndexExpr:
+			return &ast.IndexExpr{X: cp(v.X), Index: cp(v.Index)}
+		}
+		return x
+	}
+	return types.ExprString(cp(x))
+}
+
+func c14LeanList(xs []string) string {
+	q := make([]string, len(xs))
+	for i, x := range xs {
+		q[i] = leanStr(x)
+	}
+	return "[" + strings.Join(q, ", ") + "]"
+}
+
+// c14AssignGuards: for every assignment `<x>.ExtendedResources = …` in fd, the normalised conditions of the enclosing
+// if statements (outermost first; an else branch contributes "else(<cond>)"), joined by " ; ".  Unguarded = "".
+func c14AssignGuards(fd *ast.FuncDecl) []string {
+	loc := c14Locals(fd)
+	var out []string
+	var walk func(n ast.Stmt, conds []string)
+	walkList := func(l []ast.Stmt, conds []string) {
+		for _, s := range l {
+			walk(s, conds)
+		}
+	}
+	walk = func(n ast.Stmt, conds []string) {
+		switch s := n.(type) {
+		case *ast.AssignStmt:
+			for _, l := range s.Lhs {
+				if se, ok := l.(*ast.SelectorExpr); ok && se.Sel.Name == "ExtendedResources" {
+					out = append(out, strings.Join(conds, " ; "))
+				}
+			}
+		case *ast.BlockStmt:
+			walkList(s.List, conds)
+		case *ast.IfStmt:
+			c := c14Norm(loc, s.Cond)
+			walk(s.Body, append(append([]string{}, conds...), c))
+			if s.Else != nil {
+				walk(s.Else, append(append([]string{}, conds...), "else("+c+")"))
+			}
+		case *ast.ForStmt:
+			walk(s.Body, conds)
+		case *ast.RangeStmt:
+			walk(s.Body, conds)
+		}
+	}
+	walk(fd.Body, nil)
+	return out
+}
+
+// c14ReturnGuards: the normalised conditions of the top-level `if … { …; return … }` statements of fd, in order.
+func c14ReturnGuards(fd *ast.FuncDecl) []string {
+	loc := c14Locals(fd)
+	var out []string
+	for _, s := range fd.Body.List {
+		is, ok := s.(*ast.IfStmt)
+		if !ok || len(is.Body.List) == 0 {
+			continue
+		}
+		if _, ok := is.Body.List[len(is.Body.List)-1].(*ast.ReturnStmt); ok {
+			out = append(out, c14Norm(loc, is.Cond))
+		}
+	}
+	return out
+}
+
 func init() {
 	extractors["C14"] = func(e *ext) {
 		d := "pkg/koordlet/util/system"
@@ -8,5 +159,184 @@ func init() {
 		e.constInt(d, "CPUSharesMaxValue", "CPUSharesMaxValue")
 		e.constInt(d, "CFSBasePeriodValue", "CFSBasePeriodValue")
 		e.constInt(d, "CFSQuotaMinValue", "CFSQuotaMinValue")
+		e.constInt(d, "CPUWeightMinValue", "CPUWeightMinValue")
+		e.constInt(d, "CPUWeightMaxValue", "CPUWeightMaxValue")
+
+		// --- ConvertCPUSharesToWeight: the formula assigned to the weight ---
+		weight := ""
+		if fd := e.funcDecl(d, "", "ConvertCPUSharesToWeight"); fd == nil {
+			e.fail("ConvertCPUSharesToWeight not found")
+		} else {
+			loc := c14Locals(fd)
+			ast.Inspect(fd.Body, func(n ast.Node) bool {
+				if as, ok := n.(*ast.AssignStmt); ok && as.Tok == token.DEFINE && len(as.Rhs) == 1 {
+					if be, ok := as.Rhs[0].(*ast.BinaryExpr); ok && be.Op == token.ADD {
+						weight = c14Norm(loc, be)
+					}
+				}
+				return true
+			})
+		}
+		fmt.Fprintf(&e.out, "def weightFormula : String := %s\n", leanStr(weight))
+
+		// --- entry paths: guards in front of `….ExtendedResources = …` ---
+		pd := "pkg/koordlet/runtimehooks/protocol"
+		for _, x := range []struct{ recv, fn, lean string }{
+			{"PodRequest", "FromNri", "podFromNriGuards"},
+			{"PodRequest", "FromProxy", "podFromProxyGuards"},
+			{"PodRequest", "FromReconciler", "podFromReconcilerGuards"},
+			{"ContainerRequest", "FromNri", "ctrFromNriGuards"},
+			{"ContainerRequest", "FromProxy", "ctrFromProxyGuards"},
+			{"ContainerRequest", "FromReconciler", "ctrFromReconcilerGuards"},
+		} {
+			fd := e.funcDecl(pd, x.recv, x.fn)
+			if fd == nil {
+				e.fail("%s.%s not found", x.recv, x.fn)
+				fmt.Fprintf(&e.out, "def %s : List String := []\n", x.lean)
+				continue
+			}
+			fmt.Fprintf(&e.out, "def %s : List String := %s\n", x.lean, c14LeanList(c14AssignGuards(fd)))
+		}
+
+		// --- the six setters: early-return guards in order ---
+		bd := "pkg/koordlet/runtimehooks/hooks/batchresource"
+		for _, fn := range []string{"SetPodCPUShares", "SetPodCFSQuota", "SetPodMemoryLimit", "SetContainerCPUShares", "SetContainerCFSQuota", "SetContainerMemoryLimit"} {
+			fd := e.funcDecl(bd, "plugin", fn)
+			if fd == nil {
+				e.fail("plugin.%s not found", fn)
+				fmt.Fprintf(&e.out, "def guards%s : List String := []\n", fn)
+				continue
+			}
+			fmt.Fprintf(&e.out, "def guards%s : List String := %s\n", fn, c14LeanList(c14ReturnGuards(fd)))
+		}
+
+		// --- Register: the cgroup reconcilers (level, file, function, filter) and the QoS condition ---
+		var regs []string
+		if fd := e.funcDecl(bd, "plugin", "Register"); fd == nil {
+			e.fail("plugin.Register not found")
+		} else {
+			ast.Inspect(fd.Body, func(n ast.Node) bool {
+				c, ok := n.(*ast.CallExpr)
+				if !ok {
+					return true
+				}
+				if se, ok := c.Fun.(*ast.SelectorExpr); ok && se.Sel.Name == "RegisterCgroupReconciler" && len(c.Args) >= 6 {
+					sel := func(x ast.Expr) string {
+						if s, ok := x.(*ast.SelectorExpr); ok {
+							return s.Sel.Name
+						}
+						if cc, ok := x.(*ast.CallExpr); ok {
+							if s, ok := cc.Fun.(*ast.SelectorExpr); ok {
+								return s.Sel.Name
+							}
+						}
+						return types.ExprString(x)
+					}
+					regs = append(regs, sel(c.Args[0])+" "+sel(c.Args[1])+" "+sel(c.Args[3])+" "+sel(c.Args[4])+" "+types.ExprString(c.Args[5]))
+				}
+				return true
+			})
+		}
+		fmt.Fprintf(&e.out, "def reconcilers : List String := %s\n", c14LeanList(regs))
+		cond := ""
+		if x, ok := e.valueSpec(bd, "podQOSConditions"); ok {
+			cond = types.ExprString(x)
+			if cl, ok := x.(*ast.CompositeLit); ok {
+				var el []string
+				for _, y := range cl.Elts {
+					el = append(el, types.ExprString(y))
+				}
+				cond = strings.Join(el, ", ")
+			}
+		} else {
+			e.fail("podQOSConditions not found")
+		}
+		fmt.Fprintf(&e.out, "def podQOSConditions : String := %s\n", leanStr(cond))
+
+		// --- node SLO glue ---
+		var rets []string
+		if fd := e.funcDecl(bd, "", "getCPUSuppressPolicy"); fd == nil {
+			e.fail("getCPUSuppressPolicy not found")
+		} else {
+			loc := c14Locals(fd)
+			for _, s := range fd.Body.List {
+				switch st := s.(type) {
+				case *ast.IfStmt:
+					rets = append(rets, "if "+c14Norm(loc, st.Cond))
+					for _, b := range st.Body.List {
+						if r, ok := b.(*ast.ReturnStmt); ok {
+							for _, x := range r.Results {
+								rets = append(rets, "  ret "+c14Norm(loc, x))
+							}
+						}
+					}
+				case *ast.ReturnStmt:
+					for _, x := range st.Results {
+						rets = append(rets, "ret "+c14Norm(loc, x))
+					}
+				}
+			}
+		}
+		fmt.Fprintf(&e.out, "def cpuSuppressPolicy : List String := %s\n", c14LeanList(rets))
+		sloCond := ""
+		if fd := e.funcDecl(bd, "plugin", "parseRuleForNodeSLO"); fd == nil {
+			e.fail("parseRuleForNodeSLO not found")
+		} else {
+			loc := c14Locals(fd)
+			for _, s := range fd.Body.List {
+				if is, ok := s.(*ast.IfStmt); ok && is.Init != nil {
+					sloCond = c14Norm(loc, is.Cond)
+					for _, b := range is.Body.List {
+						if as, ok := b.(*ast.AssignStmt); ok && len(as.Rhs) == 1 {
+							sloCond += " => " + types.ExprString(as.Rhs[0])
+						}
+					}
+				}
+			}
+		}
+		fmt.Fprintf(&e.out, "def sloDisablesCFSQuota : String := %s\n", leanStr(sloCond))
+		eps := ""
+		if x, ok := e.valueSpec(bd, "ratioDiffEpsilon"); ok {
+			eps = types.ExprString(x)
+		} else {
+			e.fail("ratioDiffEpsilon not found")
+		}
+		fmt.Fprintf(&e.out, "def ratioDiffEpsilon : String := %s\n", leanStr(eps))
+
+		// --- resourceexecutor init(): which updater constructor serves the three files ---
+		var upd []string
+		files := e.dir("pkg/koordlet/resourceexecutor")
+		var fnames []string
+		for n := range files {
+			fnames = append(fnames, n)
+		}
+		sort.Strings(fnames)
+		for _, fname := range fnames {
+			for _, dcl := range files[fname].Decls {
+				fd, ok := dcl.(*ast.FuncDecl)
+				if !ok || fd.Name.Name != "init" || fd.Recv != nil {
+					continue
+				}
+				ast.Inspect(fd.Body, func(n ast.Node) bool {
+					c, ok := n.(*ast.CallExpr)
+					if !ok {
+						return true
+					}
+					if se, ok := c.Fun.(*ast.SelectorExpr); ok && se.Sel.Name == "Register" && len(c.Args) >= 2 {
+						for _, a := range c.Args[1:] {
+							if s, ok := a.(*ast.SelectorExpr); ok {
+								switch s.Sel.Name {
+								case "CPUSharesName", "CPUCFSQuotaName", "MemoryLimitName":
+									upd = append(upd, s.Sel.Name+" <- "+types.ExprString(c.Args[0]))
+								}
+							}
+						}
+					}
+					return true
+				})
+			}
+		}
+		sort.Strings(upd)
+		fmt.Fprintf(&e.out, "def updaters : List String := %s\n", c14LeanList(upd))
 	}
 }
